@@ -755,11 +755,14 @@ def install(lib):
             if isinstance(c.ety, Obj):
                 raise Unsupported('list.remove on objects needs the remove model (list_remove_hook)', n)
             xt = c.ety.encode(x)
+            from .lib import seqset_member_facts, seqset_remove_facts
+            seqset_member_facts(it.ctx, c.t, xt)
             if not it.ctx.branch(z3.Contains(c.t, z3.Unit(xt)), 'remove-present'):
                 it.raise_('ValueError', line=n.lineno)
             i = z3.IndexOf(c.t, z3.Unit(xt), 0)
             nl = z3.Length(c.t)
             t = z3.Concat(z3.SubSeq(c.t, 0, i), z3.SubSeq(c.t, i + 1, nl - i - 1))
+            seqset_remove_facts(it.ctx, c.t, xt, t)
             it.set_content(a[0], VSeq(t, c.ety, c.kind))
             return NONE
         raise Unsupported('remove on %r' % (c,), n)
@@ -819,7 +822,9 @@ def install(lib):
             return default
         val = c.vty.wrap(simp(o.val(cell)))
         if isinstance(val, VCell):
-            raise Unsupported('dict of mutable containers', n)
+            # a container stored in a dict: handed out as an object that must not be changed in place (the dict would
+            # not see it); reading, iterating and building new values from it is fine
+            val.frozen = True
         return VUnion([(o.is_none(cell), default), (z3.Not(o.is_none(cell)), val)])
     dm['get'] = _dget
 
